@@ -44,6 +44,21 @@ def impl(case):
         ev.skip_exceptions = set()
         return observe(ev, O.prog(w), [S.value_from_wire(v) for v in inp])
     use_cache, skip, ops = case["data"]
+    if case.get("decoy"):
+        # another evaluator of the same process, with other semantics for the same
+        # primitives, evaluates the same programs first: evaluators must not share state
+        sem = semantics()
+        twisted = {P: (S.Clos(1) if P.primitive == "add" else S.Clos(0) if P.primitive == "sub" else
+                       S.Clos(21) if P.primitive == "inc" else 7 if P.primitive == "one" else v)
+                   for P, v in sem.items()}
+        decoy = DSLEvaluator(twisted, use_cache=True)
+        decoy.skip_exceptions = {S.EXC_BY_ID[i] for i in (0, 1, 2, 3)}
+        for o in ops:
+            if o[0] == 0:
+                try:
+                    decoy.eval(O.prog(o[1]), [S.value_from_wire(v) for v in o[2]])
+                except Exception:
+                    pass
     ev = DSLEvaluator(semantics(), use_cache=bool(use_cache))
     ev.skip_exceptions = {S.EXC_BY_ID[i] for i in skip}
     out = []
